@@ -7,6 +7,11 @@ mod portable;
 #[cfg(any(target_arch = "x86", target_arch = "x86_64"))]
 cpufeatures::new!(target_feature_avx2, "avx2");
 
+#[cfg(feature = "__verif")]
+pub(crate) fn verif_portable(input: &[u8], output: &mut [u8], rows: usize) {
+    portable::transpose_bitmatrix(input, output, rows)
+}
+
 /// Transpose a bit matrix.
 ///
 /// # Panics
